@@ -222,6 +222,8 @@ fn get_or_generate_source_block_encoding_plan(symbol_count: u16) -> Arc<SourceBl
     }
 
     let generated = Arc::new(SourceBlockEncodingPlan::generate(symbol_count));
+    #[cfg(feature = "verif_hooks")]
+    verif_encoder::between_sections(symbol_count);
     let cache = source_block_encoding_plan_cache();
     let mut guard = cache
         .lock()
@@ -241,6 +243,103 @@ fn get_or_generate_source_block_encoding_plan(symbol_count: u16) -> Arc<SourceBl
     guard.plans.insert(symbol_count, Arc::clone(&generated));
     generated
 }
+// Verification seams for the encoder: read-only accessors, an un-planned constructor with an
+// explicit sparse threshold, and observation points for the plan cache.
+#[cfg(feature = "verif_hooks")]
+pub mod verif_encoder {
+    use super::*;
+    use std::sync::atomic::{AtomicUsize, Ordering};
+
+    pub fn gen_intermediate_symbols_raw(
+        source_block: &[Symbol],
+        symbol_size: usize,
+        sparse_threshold: u32,
+    ) -> (Option<SymbolSlab>, Option<Vec<SymbolOps>>) {
+        gen_intermediate_symbols(source_block, symbol_size, sparse_threshold)
+    }
+
+    pub fn intermediate_symbols(encoder: &SourceBlockEncoder) -> Vec<Vec<u8>> {
+        (0..encoder.intermediate_symbols.len())
+            .map(|i| encoder.intermediate_symbols.get(i).to_vec())
+            .collect()
+    }
+
+    pub fn new_unplanned(
+        source_block_id: u8,
+        config: &ObjectTransmissionInformation,
+        data: &[u8],
+        sparse_threshold: u32,
+    ) -> SourceBlockEncoder {
+        let source_symbols = SourceBlockEncoder::create_symbols(config, data);
+        let (intermediate_symbols, _operations) = gen_intermediate_symbols(
+            &source_symbols,
+            config.symbol_size() as usize,
+            sparse_threshold,
+        );
+        SourceBlockEncoder {
+            source_block_id,
+            source_symbols,
+            intermediate_symbols: intermediate_symbols.unwrap(),
+        }
+    }
+
+    pub fn plan_operations(plan: &SourceBlockEncodingPlan) -> &[SymbolOps] {
+        &plan.operations
+    }
+
+    pub fn plan_symbol_count(plan: &SourceBlockEncodingPlan) -> u16 {
+        plan.source_symbol_count
+    }
+
+    pub fn get_or_generate_plan(symbol_count: u16) -> Arc<SourceBlockEncodingPlan> {
+        get_or_generate_source_block_encoding_plan(symbol_count)
+    }
+
+    pub const CACHE_CAPACITY: usize = SOURCE_BLOCK_ENCODING_PLAN_CACHE_CAPACITY;
+
+    // (insertion order front..back, sorted map keys, for each sorted key the symbol count stored
+    // in its plan)
+    pub fn cache_snapshot() -> (Vec<u16>, Vec<u16>, Vec<u16>) {
+        let cache = source_block_encoding_plan_cache();
+        let guard = cache
+            .lock()
+            .unwrap_or_else(|poisoned| poisoned.into_inner());
+        let order: Vec<u16> = guard.insertion_order.iter().copied().collect();
+        let mut keys: Vec<u16> = guard.plans.keys().copied().collect();
+        keys.sort_unstable();
+        let counts = keys
+            .iter()
+            .map(|k| guard.plans[k].source_symbol_count)
+            .collect();
+        (order, keys, counts)
+    }
+
+    pub fn cache_clear() {
+        let cache = source_block_encoding_plan_cache();
+        let mut guard = cache
+            .lock()
+            .unwrap_or_else(|poisoned| poisoned.into_inner());
+        guard.plans.clear();
+        guard.insertion_order.clear();
+    }
+
+    static BETWEEN_SECTIONS_HOOK: AtomicUsize = AtomicUsize::new(0);
+
+    // Installs a callback run by every request that missed in the first critical section, after
+    // it generated its plan and before it enters the second critical section.
+    pub fn set_between_sections_hook(hook: Option<fn(u16)>) {
+        BETWEEN_SECTIONS_HOOK.store(hook.map_or(0, |f| f as usize), Ordering::SeqCst);
+    }
+
+    pub(super) fn between_sections(symbol_count: u16) {
+        let raw = BETWEEN_SECTIONS_HOOK.load(Ordering::SeqCst);
+        if raw != 0 {
+            let hook: fn(u16) = unsafe { std::mem::transmute::<usize, fn(u16)>(raw) };
+            hook(symbol_count);
+        }
+    }
+}
+
 #[derive(Clone, Debug, PartialEq, Eq)]
 #[cfg_attr(feature = "serde_support", derive(Serialize, Deserialize))]
 pub struct SourceBlockEncoder {
